@@ -1,0 +1,29 @@
+//go:build verif
+
+package promapi
+
+import "time"
+
+// Verification accessors (build tag verif only; no call sites in the program).
+
+// VerifSetCacheClock replaces the clock of the query cache shared by the group's servers.
+// Call it after StartWorkers. It lets a test drive TTL expiry and gc with a fake clock.
+func (fg *FailoverGroup) VerifSetCacheClock(now func() time.Time) {
+	for _, prom := range fg.servers {
+		if prom.cache != nil {
+			prom.cache.mu.Lock()
+			prom.cache.now = now
+			prom.cache.mu.Unlock()
+			return
+		}
+	}
+}
+
+// VerifQueueState reports the number of jobs waiting in the query channel of the first server
+// and the channel's capacity.
+func (fg *FailoverGroup) VerifQueueState() (queued, capacity int) {
+	for _, prom := range fg.servers {
+		return len(prom.queries), cap(prom.queries)
+	}
+	return 0, 0
+}
